@@ -61,3 +61,8 @@ CLAIMED["C06"] = {
     "note": "Rule firing (IncrementalEngine::fire_all, propagation, action closures) is NOT covered. Payloads empty. Trusted: rsym + library model, z3, reference model. Bounded in K.",
 }
 NA.pop("C06", None)
+CLAIMED["C01"] = {
+    "text": "Operator-semantics clause only: the real Operator::evaluate / Value::to_number are executed symbolically with the operator symbolic over all 12 variants and both operands symbolic over candidate sets of Integer (incl. 2^53, 2^53+1, i64 extremes), Number (incl. -0.0, inf, NaN), String (incl. '', 'null', numeric and non-numeric text), Boolean, Null and an Array; plus Equal/NotEqual over ANY pair of i64. Oracle: the documented meaning (numeric coercion for ordering, structural equality with the null/'null' rule, string operators only on two strings, membership) written independently.",
+    "note": "NOT covered: condition trees, missing-field-reads-as-null, field-reference right-hand sides, arithmetic expressions (z3 float theory: unknown at 600 s), assignment effects - all behind RustRuleEngine/Facts/expression.rs. Finite candidate domains. Trusted: rsym + library model (incl. the Rust float-literal grammar for parse::<f64>), z3.",
+}
+NA.pop("C01", None)
